@@ -345,6 +345,7 @@ class Frame:
         self.depth = depth
         self.returns = []
         self.raises = []
+        self.loops = []
         self.effects = []   # (kind, target, value) for attribute stores etc.
 
 
@@ -357,8 +358,9 @@ EMPTY_CTORS = {'RegionMeta', 'RegionVisual', 'dict', 'list'}
 
 
 class Evaluator:
-    def __init__(self, model: Model, opaque_funcs=(), hooks=None):
+    def __init__(self, model: Model, opaque_funcs=(), hooks=None, track_copies=False):
         self.m = model
+        self.track_copies = track_copies
         self.opaque = set(opaque_funcs)     # qualnames not to inline
         self.hooks = hooks or {}            # ext/dotted name -> fn(ev, args, kwargs)
         self.trace = []
@@ -652,14 +654,35 @@ class Evaluator:
             it = self.expr(st.iter, env, fr)
             items = _iter_items(it)
             if items is not None:
+                if _has_break(st.body):
+                    _havoc(st.body, env, 'loop with break')
+                    return True
                 for item in items:
                     self.assign(st.target, item, env, fr)
-                    # break/continue are not modelled inside unrolled loops
-                    if _has_loop_jump(st.body):
-                        _havoc(st.body, env, 'loop with break/continue')
-                        break
-                    if not self.block(st.body, env, pc, fr):
+                    ctx = {'continues': [], 'pc_len': len(pc)}
+                    fr.loops.append(ctx)
+                    nret = len(fr.returns)
+                    fell = self.block(st.body, env, pc, fr)
+                    fr.loops.pop()
+                    body_pc = pc[ctx['pc_len']:]
+                    del pc[ctx['pc_len']:]
+                    if ctx['continues']:
+                        if not fell:
+                            cpc, cenv = ctx['continues'][-1]
+                            env.clear(); env.update(cenv)
+                            rest = ctx['continues'][:-1]
+                        else:
+                            rest = ctx['continues']
+                        for cpc, cenv in reversed(rest):
+                            c = self.conj(cpc[ctx['pc_len']:])
+                            for k in set(env) | set(cenv):
+                                env[k] = mk_ite(c, cenv.get(k, Unknown(f'{k} undefined')),
+                                                env.get(k, Unknown(f'{k} undefined')))
+                    elif not fell:
                         return False
+                    elif len(fr.returns) > nret and body_pc:
+                        # an early return inside the body constrains the rest of the function
+                        pc.extend(body_pc)
                 return True
             _havoc([st], env, 'loop over symbolic iterable')
             return True
@@ -694,7 +717,11 @@ class Evaluator:
             if isinstance(st, ast.FunctionDef):
                 env[st.name] = App('localfunc:' + st.name)
             return True
-        if isinstance(st, (ast.Break, ast.Continue)):
+        if isinstance(st, ast.Continue):
+            if fr.loops:
+                fr.loops[-1]['continues'].append((list(pc), _copy_env(env)))
+            return False
+        if isinstance(st, ast.Break):
             return False
         raise AnalysisError('VG', fr.fi.qualname, f'statement kind {type(st).__name__}')
 
@@ -864,6 +891,26 @@ class Evaluator:
         return Unknown(f'expression kind {type(n).__name__}')
 
     def comprehension(self, n, env, fr):
+        if isinstance(n, ast.DictComp) and len(n.generators) == 1 and not n.generators[0].ifs:
+            g = n.generators[0]
+            it = self.expr(g.iter, env, fr)
+            items = None
+            if isinstance(it, App) and it.name == 'dict.items' and isinstance(it.args[0], DictV) \
+                    and not it.args[0].has_symbolic():
+                d = it.args[0]
+                items = [Tup((Const(k), d.get(k))) for k in d.keys()]
+            else:
+                items = _iter_items(it)
+            if items is not None:
+                out = {}
+                for item in items:
+                    e2 = dict(env)
+                    self.assign(g.target, item, e2, fr)
+                    k = self.expr(n.key, e2, fr)
+                    if not isinstance(k, Const):
+                        return Unknown('dict comprehension with symbolic key')
+                    out[k.v] = self.expr(n.value, e2, fr)
+                return DictV([out])
         if isinstance(n, ast.ListComp) and len(n.generators) == 1 and not n.generators[0].ifs:
             g = n.generators[0]
             items = _iter_items(self.expr(g.iter, env, fr))
@@ -1310,9 +1357,13 @@ class Evaluator:
                 if r is not None:
                     return r
             if short == 'isscalar' and len(a) == 1:
+                if isinstance(a[0], (Obj, DictV, Tup)) and getattr(a[0], 'typed', True):
+                    return Const(False)      # np.isscalar of any non-number object is False
                 return App('isscalar', (a[0],))
         if name == 'math.pi' or name == 'numpy.pi':
             return sp.pi
+        if short in ('deepcopy',) and self.track_copies:
+            return App('copy', (a[0],))
         if short in ('deepcopy',) or name in ('copy.copy', 'numpy.copy'):
             if isinstance(a[0], Obj) and a[0].cls in ('RegionMeta', 'RegionVisual') and a[0].path:
                 return App('copy', (a[0],))
@@ -1417,6 +1468,23 @@ def _fold_isinstance(model, v, t):
             elif v.ci is None and kind == 'ext' and c in ('dict',) and v.cls in ('RegionMeta', 'RegionVisual'):
                 res = True
         return res
+    if isinstance(v, sp.Basic):
+        q = _has_unit(v)
+        res = False
+        for kind, c in names:
+            if kind == 'repo':
+                continue
+            if c == 'Quantity':
+                if q:
+                    res = True
+            elif c in ('Angle',):
+                if q:
+                    return None       # a Quantity may or may not be an Angle
+            elif c in ('SkyCoord', 'str', 'dict', 'list', 'tuple'):
+                continue
+            else:
+                return None
+        return res
     if isinstance(v, DictV):
         return any((k == 'ext' and c == 'dict') for k, c in names) or None
     if isinstance(v, Const) and isinstance(v.v, str):
@@ -1497,6 +1565,14 @@ def _has_loop_jump(body):
     for s in body:
         for n in ast.walk(s):
             if isinstance(n, (ast.Break, ast.Continue)):
+                return True
+    return False
+
+
+def _has_break(body):
+    for s in body:
+        for n in ast.walk(s):
+            if isinstance(n, ast.Break):
                 return True
     return False
 
